@@ -142,7 +142,7 @@ DEFS = [
     (r"builders::decision_table::parse_decision_table$", r"call\|<>::index",
      "i enumerates the input (resp. output) clauses and the rule was rejected above unless it has exactly as many input (resp. output) entries", [r"cmp:==:len:len"]),
     (r"dmntk_model_evaluator::builders::item_definition_type$", r"call\|core::option::Option::<>::unwrap",
-     "the arm is selected by the tuple `condition`, whose components are type_ref().is_some() and feel_type.is_some(): unwrap is applied to feel_type only in arms with `true` in the second position and to type_ref() only in arms with `true` in the first", []),
+     "the arm is selected by the tuple `condition`, whose components are type_ref().is_some() and feel_type.is_some(): unwrap is applied to feel_type only in arms with `true` in the second position and to type_ref() only in arms with `true` in the first (type_ref() is a plain accessor, so the second call returns the same Some)", [r"variant:Some"]),
     # ---------------------------------------------------------------- model-evaluator: decision tables (reached through the evaluator closure signature)
     (r"decision_table::EvaluatedDecisionTable::(get_result|evaluate_hit_policy_collect_(sum|min|max)::\{closure#0\})$", r"call\|<>::index#(1|0)$(?<!get_result\|call\|<>::index#0)",
      "output_entry_values has one value per output clause of the table: parse_decision_table rejects tables without output clauses and rules whose number of output entries differs from the number of clauses, so the vector is never empty",
